@@ -69,9 +69,8 @@ func parseWriteStringArgs(
 	args slip.List,
 	depth int) (str slip.String, ra []rune, w io.Writer, ss slip.Stream) {
 
-	so := s.Get("*standard-output*")
-	w = so.(io.Writer)
-	ss, _ = so.(slip.Stream)
+	w = s.WriterVar("*standard-output*", depth)
+	ss, _ = w.(slip.Stream)
 
 	var ok bool
 	if str, ok = args[0].(slip.String); !ok {
